@@ -8,6 +8,11 @@ pub mod spec;
 pub mod c01;
 pub mod c02;
 pub mod c03;
+pub mod c04;
+pub mod c05;
+pub mod c06;
+pub mod c14;
+pub mod c15;
 pub mod c18;
 
 macro_rules! table {
@@ -28,6 +33,17 @@ table! {
     c02::h_match,
     c18::h_any,
     c18::h_tokens,
+    c04::h_any,
+    c04::h_skeletons,
+    c05::h_inert,
+    c05::h_glob,
+    c06::h_pair,
+    c06::h_triple,
+    c14::h_entry,
+    c14::h_list_small,
+    c14::h_list_lines,
+    c15::h_all_kinds,
+    c15::h_files,
     c03::h_laws2,
     c03::h_trans,
     c03::h_api_laws,
